@@ -133,6 +133,21 @@ class Rec(Instrumentation):
         _Run.ev.append(["F-", self.i, list(info.path)])
 
 
+class RecCollecting(Rec):
+    """a recorder that is a container of what it has recorded: empty, hence falsy, when the request starts"""
+    def __len__(self):
+        return len(_Run.ev or ())
+
+
+class RecNever(Rec):
+    def __bool__(self):
+        return False
+
+
+def _make_rec(i, kind):
+    return {"len": RecCollecting, "bool": RecNever}.get(kind, Rec)(i)
+
+
 def _mw(i):
     def m(next_, root, ctx, info, **kw):
         _Run.ev.append(["M+", i, list(info.path)])
@@ -141,6 +156,76 @@ def _mw(i):
         finally:
             _Run.ev.append(["M-", i, list(info.path)])
     return m
+
+
+class _MwObject:
+    """a middleware that is a callable object"""
+    def __init__(self, i):
+        self.i = i
+        self.calls = []
+
+    def __call__(self, next_, root, ctx, info, **kw):
+        _Run.ev.append(["M+", self.i, list(info.path)])
+        self.calls.append(list(info.path))
+        try:
+            return next_(root, ctx, info, **kw)
+        finally:
+            _Run.ev.append(["M-", self.i, list(info.path)])
+
+    def handle(self, next_, root, ctx, info, **kw):      # used as a bound method
+        return self(next_, root, ctx, info, **kw)
+
+
+class _MwCollecting(_MwObject):
+    """... that is also a container of what it has seen: empty, hence falsy, when the executor is built"""
+    def __len__(self):
+        return len(self.calls)
+
+
+class _MwNever(_MwObject):
+    def __bool__(self):
+        return False
+
+
+class _AMwCollecting(_MwCollecting):
+    async def __call__(self, next_, root, ctx, info, **kw):
+        _Run.ev.append(["M+", self.i, list(info.path)])
+        self.calls.append(list(info.path))
+        try:
+            r = next_(root, ctx, info, **kw)
+            if inspect.isawaitable(r):
+                r = await r
+            return r
+        finally:
+            _Run.ev.append(["M-", self.i, list(info.path)])
+
+
+def _mw_generic(mw_index_, next_, root, ctx, info, **kw):     # (field arguments arrive in **kw: no clash)
+    _Run.ev.append(["M+", mw_index_, list(info.path)])
+    try:
+        return next_(root, ctx, info, **kw)
+    finally:
+        _Run.ev.append(["M-", mw_index_, list(info.path)])
+
+
+MW_KINDS = ("function", "object", "len", "bool", "partial", "method")
+
+
+def _make_mw(i, kind, awaiting):
+    if awaiting:
+        return _AMwCollecting(i) if kind in ("len", "object", "bool") else _amw(i)
+    if kind == "object":
+        return _MwObject(i)
+    if kind == "len":
+        return _MwCollecting(i)
+    if kind == "bool":
+        return _MwNever(i)
+    if kind == "partial":
+        import functools
+        return functools.partial(_mw_generic, i)
+    if kind == "method":
+        return _MwObject(i).handle
+    return _mw(i)
 
 
 def _amw(i):
@@ -277,7 +362,7 @@ def _schema(config, deferred):
 
 def _instrumentation(case):
     k, st = case["k"], case["stacking"]
-    recs = [Rec(i) for i in range(k)]
+    recs = [_make_rec(i, case.get("inst_kind")) for i in range(k)]
     tracer = None
     if st == "plain":
         assert k == 1
@@ -392,7 +477,8 @@ def _one_run(case, choose):
     text = doc_text(case)
     document = text if case["as_text"] else parse(text)
     asyncmw = config == "asyncio" and case.get("mw_async", False)
-    mws = [(_amw if asyncmw else _mw)(i) for i in range(case["n"])]
+    kinds = case.get("mw_kinds") or []
+    mws = [_make_mw(i, kinds[i] if i < len(kinds) else "function", asyncmw) for i in range(case["n"])]
     kw = dict(instrumentation=inst, middlewares=mws, variables=case.get("variables"),
               operation_name=case.get("operation_name"))
     if case.get("novalidate"):
@@ -744,6 +830,18 @@ def corpus():
             out.append(_base(config, sel=[[None, "i", None, [[None, "a", None, []]]], [None, "a", None, []]],
                              world={"i": "cerr"}, n=1, k=2, stacking="tracer",
                              deferred=["Query.i"] if config in DEFERRED_CFG else []))
+        # seeded C16-g: callable middlewares whose truth value is False when the executor is built must not
+        # be dropped; fixes/C16-03: a falsy Instrumentation passed alone must not be replaced by the no-op one
+        defr = ["Query.o"] if config in DEFERRED_CFG else []
+        out.append(_base(config, sel=SEL_NESTED, n=3, mw_kinds=["len", "function", "bool"], deferred=defr))
+        out.append(_base(config, sel=SEL_NESTED, n=2, mw_kinds=["partial", "len"], mw_async=True, k=2,
+                         stacking="multi", deferred=defr))
+        out.append(_base(config, sel=SEL_NESTED, n=2, mw_kinds=["method", "object"], k=1, stacking="plain",
+                         inst_kind="len", world={"o/a": "err"}, deferred=defr))
+        out.append(_base(config, sel=[[None, "a", None, []]], k=1, stacking="plain", inst_kind="bool"))
+        out.append(_base(config, kind="syntax", doc="{ a ", k=1, stacking="plain", inst_kind="len"))
+        out.append(_base(config, sel=SEL_NESTED, k=2, stacking="tracer", inst_kind="len", n=1, mw_kinds=["len"],
+                         deferred=defr))
         # seeded C16-f / commit 60b475c: a list item that cannot be completed (resolve_type raises) must not
         # end the request while sub-fields of earlier items / sibling rows are still resolving
         dfr = ["T.a"] if config in DEFERRED_CFG else []
@@ -860,6 +958,10 @@ def _gen_exec(rng, config, max_deferred, max_orders):
             if s[1] == "x":
                 s[2] = '"s"'
                 case["novalidate"] = True
+    # middlewares / instrumentations as objects, also ones whose truth value is False at request start
+    case["mw_kinds"] = [rng.choice(MW_KINDS) for _ in range(case["n"])]
+    if rng.random() < 0.35:
+        case["inst_kind"] = rng.choice(["len", "bool"])
     used = sorted({"%s.%s" % (parent, name) for _p, parent, name in _paths(case) if name != META})
     if rng.random() < 0.3:
         case["frag"] = rng.choice(["inline", "spread"])
@@ -902,7 +1004,8 @@ def generate(rng, tier):
                 k = rng.choice([1, 2, 3])
                 st = rng.choice(["plain", "tracer"] if k == 1 else ["multi", "tracer", "nested"])
                 cases.append(_base(config, kind=kind, as_text=as_text, k=k, stacking=st,
-                                   n=rng.choice([0, 2]), mw_async=rng.random() < 0.5, **extra))
+                                   n=rng.choice([0, 2]), mw_async=rng.random() < 0.5,
+                                   inst_kind=rng.choice([None, None, "len", "bool"]), **extra))
     n_block = 120 if quick else 900
     n_def = 55 if quick else 200
     for config in ("blocking", "generic"):
